@@ -87,3 +87,23 @@ PROPS = {
     "C18": W([G, CH, G_COND, CH_COND], 1600, 60000, FP_RULE % "the frontier was queried with >=1 task offered",
              lambda r: r["stats"].get("invocations", 0) > 0),
 }
+
+
+def _lib(mod, quick, thorough, rule, **kw):
+    d = {"streams": [{"profile": "lib"}], "runs": {"quick": quick, "thorough": thorough}, "rule": rule,
+         "run": mod.run, "case": mod.case, "run_case": mod.run_case, "shrink": mod.shrink_ops,
+         "nontrivial": lambda r: r["stats"].get("started", 0) > 0}
+    d.update(kw)
+    return d
+
+
+from . import lib16  # noqa: E402
+
+PROPS["C16"] = _lib(
+    lib16, 30000, 1500000,
+    "seeded operation histories (<=40 queue operations: add/next/remove/in-place re-timing+reheapify/peek/"
+    "next-of-type over events of all types at few distinct times and task names, then <=15 EventTime algebra "
+    "operations on values in random units incl. negatives and the invalid marker); non-trivial = at least one "
+    "event was popped; distinct = distinct (probes reached, history length bucket, #event types, #times, first "
+    "six operations). The same pop-order oracle also runs online in every simulated run of C01-C08.",
+    real=["simulator.EventQueue/Event/EventType", "utils.EventTime"], stub=[])
